@@ -36,6 +36,13 @@ class NeedDraw(Exception):
     def __init__(self, arity): self.arity = arity
 
 
+class TooManyDraws(Exception):
+    pass
+
+
+DRAW_CAP = 200_000   # a real gen_wilson run on the grids used here needs a few hundred draws
+
+
 class WTap:
     """records (and optionally scripts) every numpy-global draw gen_wilson makes: value, range, weights, call kind"""
     def __init__(self, script=None):
@@ -81,6 +88,7 @@ class WTap:
                 v = tap.orig["choice"](a, size=size, replace=replace, p=p)
                 k = int(v) if (np.isscalar(a) or np.ndim(a) == 0) else None
             tap.draws.append(k if k is not None else -1); tap.ranges.append(n)
+            if len(tap.draws) > DRAW_CAP: raise TooManyDraws(f"more than {DRAW_CAP} draws")
             return v
 
         class Foreign:
@@ -323,7 +331,12 @@ def run(ctx):
         if i % 5 == 0: r, c = ctx.rng.choice([(1, 1), (1, 2), (2, 1), (1, 5), (4, 1), (2, 2), (2, 3), (3, 2), (3, 3)])
         else: r, c = ctx.rng.randint(2, maxn), ctx.rng.randint(2, maxn)
         np.random.seed(ctx.rng.randrange(2**32))
-        m, t, _ = run_wilson(r, c)
+        try:
+            m, t, _ = run_wilson(r, c)
+        except TooManyDraws as ex:
+            ctx.disagree(f"real gen_wilson on {r}x{c} did not finish within {DRAW_CAP} draws (the machine finishes such grids within a few hundred)", dict(rows=r, cols=c))
+            if len(ctx.disagreements) > 3: break
+            continue
         e = gens.edges_of(m.connection_list)
         erasures = sum(1 for _ in range(0))  # (erasures are visible to the machine only; counted from its reply below)
         ctx.case([r, c, t.draws], nontrivial=len(t.draws) >= 4)
@@ -408,19 +421,82 @@ def run(ctx):
         judge_hist(ctx, r, c, hist, seeds, tot, spanning_masks_py(r, c), "frequency test")
 
 
+def impl_chain(rows, cols, pool, max_states=20000):
+    """The Markov chain the REAL gen_wilson performs on this grid, explored through its own observed states (frame
+    locals at each draw request), without reference to the model: state -> list of successors (one per draw value)."""
+    ranges0 = None
+    r = _bisim_worker((rows, cols, []))
+    # the two start draws: ranges observed by feeding scripts of growing length
+    a_rng = r["need"]
+    starts, trans, rep_script, fin_mask = [], {}, {}, {}
+    if r["fin"]: return None
+    firsts = list(pool.map(_bisim_worker, [(rows, cols, [a]) for a in range(a_rng)]))
+    scripts = [[a, b] for a, fr in enumerate(firsts) for b in range(fr["need"])]
+    res = list(pool.map(_bisim_worker, [(rows, cols, sc) for sc in scripts]))
+    frontier = {}
+    for sc, x in zip(scripts, res):
+        if x["fin"] or x["state"] is None: return None
+        k = (x["state"][0], x["state"][1], tuple(x["state"][2]))
+        starts.append(k)
+        if k not in rep_script: rep_script[k] = sc; frontier[k] = (sc, x["need"])
+    while frontier and len(rep_script) < max_states:
+        jobs = [(key, sc + [k]) for key, (sc, ar) in frontier.items() for k in range(ar)]
+        res = list(pool.map(_bisim_worker, [(rows, cols, sc) for _, sc in jobs], chunksize=64))
+        newf = {}
+        for (key, sc), x in zip(jobs, res):
+            if x["state"] is None: return None
+            if x["fin"]:
+                trans.setdefault(key, []).append(("fin", x["state"][1])); fin_mask[x["state"][1]] = sc; continue
+            nk = (x["state"][0], x["state"][1], tuple(x["state"][2]))
+            trans.setdefault(key, []).append(nk)
+            if nk not in rep_script: rep_script[nk] = sc; newf[nk] = (sc, x["need"])
+        frontier = newf
+    if frontier: return None
+    return dict(starts=starts, trans=trans, scripts=fin_mask)
+
+
+def chain_law(chain, steps):
+    """absorption probabilities of the chain after `steps` draws (every draw uniform on its range): {mask: p}, unfinished"""
+    dist = {}
+    for s in chain["starts"]: dist[s] = dist.get(s, 0.0) + 1.0 / len(chain["starts"])
+    done = {}
+    for _ in range(steps):
+        nd = {}
+        for s, w in dist.items():
+            succ = chain["trans"][s]
+            for t in succ:
+                if t[0] == "fin": done[t[1]] = done.get(t[1], 0.0) + w / len(succ)
+                else: nd[t] = nd.get(t, 0.0) + w / len(succ)
+        dist = nd
+        if sum(dist.values()) < 1e-12: break
+    return done, sum(dist.values())
+
+
 def search(ctx):
-    """deeper exact enumeration and 10x the samples"""
-    for (r, c), budget in [((2, 2), 40000), ((2, 3), 60000), ((3, 2), 60000)]:
-        lo, U, fin, runs, _ = exact_impl_law(ctx, r, c, budget)
-        span = spanning_masks_py(r, c); N = len(span)
-        for T in set(span) | set(lo):
-            l = lo.get(T, Fraction(0))
-            if T not in span or l > Fraction(1, N) or l + U < Fraction(1, N):
-                ctx.violate(f"exact enumeration of the real gen_wilson on {r}x{c}: mask {T} has probability in [{float(l):.6f}, {float(l+U):.6f}] "
-                            f"({'not a spanning tree' if T not in span else f'excludes 1/{N}'})", dict(rows=r, cols=c, tree=T, explored_runs=runs, unexplored_mass=str(U)))
-                return
+    """(a) the exact law of the implementation's own chain on the small grids; (b) 10x the samples"""
+    from concurrent.futures import ProcessPoolExecutor
+    with ProcessPoolExecutor(16) as pool:
+        for (r, c) in [(2, 2), (2, 3), (3, 2), (3, 3)]:
+            span = spanning_masks_py(r, c); N = len(span)
+            ch = impl_chain(r, c, pool)
+            if ch is None:
+                ctx.notes.append(f"search: the implementation's chain on {r}x{c} could not be explored through its frame state"); continue
+            law, U = chain_law(ch, 2000)
+            ctx.case([r, c, "impl_chain", len(ch["trans"])])
+            tol = 1e-7
+            for T in sorted(set(span) | set(law)):
+                p = law.get(T, 0.0)
+                if T not in span and p > tol:
+                    ctx.violate(f"exact law of the real gen_wilson on {r}x{c} (its own state chain, {len(ch['trans'])} states, each draw uniform on the range the code requests): "
+                                f"it returns mask {T}, which is not a spanning tree, with probability {p:.6f} (draws {ch['scripts'].get(T)})",
+                                dict(rows=r, cols=c, tree=T, draws=ch["scripts"].get(T), probability=p)); return
+                if T in span and (p > 1 / N + tol or p + U < 1 / N - tol):
+                    ctx.violate(f"exact law of the real gen_wilson on {r}x{c} (its own state chain, {len(ch['trans'])} states, each draw uniform on the range the code requests): "
+                                f"spanning tree mask {T} is returned with probability in [{p:.7f}, {p+U:.7f}], not 1/{N} = {1/N:.7f}; "
+                                f"min/max over all trees {min(law.get(x, 0.0) for x in span):.7f}/{max(law.get(x, 0.0) for x in span):.7f}",
+                                dict(rows=r, cols=c, tree=T, chain_states=len(ch["trans"]), probability=p, unfinished=U, example_draws=ch["scripts"].get(T))); return
     for (r, c), N in SMALL.items():
-        hist, seeds, tot = sample_hist(ctx, r, c, 400000 if ctx.quick else 4000000)
+        hist, seeds, tot = sample_hist(ctx, r, c, 200000 if ctx.quick else 4000000)
         if judge_hist(ctx, r, c, hist, seeds, tot, spanning_masks_py(r, c), "search"): return
 
 
@@ -436,6 +512,14 @@ def replay(ctx, rp):
             for h in ex.map(_sample_worker, [(r, cc, s, per) for s in c["seeds"]]):
                 for k, v in h.items(): hist[k] = hist.get(k, 0) + v
         judge_hist(ctx, r, cc, hist, c["seeds"], per * len(c["seeds"]), span, "replay")
+    elif "chain_states" in c or "probability" in c:
+        from concurrent.futures import ProcessPoolExecutor
+        with ProcessPoolExecutor(16) as pool:
+            ch = impl_chain(r, cc, pool)
+        law, U = chain_law(ch, 2000)
+        N = len(span); p = law.get(c["tree"], 0.0)
+        if (c["tree"] not in span and p > 1e-7) or (c["tree"] in span and (p > 1 / N + 1e-7 or p + U < 1 / N - 1e-7)):
+            ctx.violate(f"replay: mask {c['tree']} has probability in [{p:.7f}, {p+U:.7f}] (1/N = {1/N:.7f})", c)
     elif "explored_runs" in c:
         lo, U, fin, runs, _ = exact_impl_law(ctx, r, cc, c["explored_runs"])
         N = len(span)
